@@ -9,6 +9,7 @@ import (
 	"crypto/tls"
 	"encoding/base64"
 	"encoding/binary"
+	"fmt"
 	"errors"
 	"io"
 	"net"
@@ -383,9 +384,11 @@ type DoQResult struct {
 // Exchange opens a stream, writes raw (already framed or hostile bytes), sends FIN and reads until EOF or timeout.
 func (c *DoQClient) Exchange(raw []byte, timeout time.Duration) DoQResult {
 	var r DoQResult
-	st, err := c.conn.OpenStreamSync(context.Background())
+	octx, ocancel := context.WithTimeout(context.Background(), timeout) // a peer that grants no further stream must not hang the caller
+	st, err := c.conn.OpenStreamSync(octx)
+	ocancel()
 	if err != nil {
-		r.Err = err
+		r.Err = fmt.Errorf("open stream: %w", err)
 		return r
 	}
 	r.TSend = clock.Now()
